@@ -20,7 +20,8 @@ Scen(q) == LET S == Scenarios(q.nw, q.nr, q.r)
 
 Step(q) ==
   CASE q.k = "scen" -> [scenarios |-> Scen(q)]
-    [] q.k = "hist" -> [histories |-> SetToSeq(Histories)]
+    [] q.k = "hist" -> [histories |-> SetToSeq(Histories), file_histories |-> [i \in 1..Len(FileHistories) |-> [j \in 1..Len(FileHistories[i]) |->
+                                                   [state |-> FileHistories[i][j], judged |-> FileStepJudged(FileHistories[i][j])]]]]
     [] q.k = "judge" -> Judge(q)
     [] q.k = "refusal" -> Refusal(q)
 
